@@ -270,29 +270,61 @@ def R3_counts_and_readers(ctx):
     ctx.check(seen.get(False) == (True, False), "line_count:plain", "plain branch is not lines().count() over the file", lcb.where(), detail="BufReader(file).lines().count()")
     # raw file readers
     rr = F.need(FS + "read_utils::read_raw_file")
-    rows = [r for r in table(rr, max_paths=100000) if r.end == "return" and result_variant(r.ret) == "Ok"]
-    which = {}
-    for r in rows:
-        gz = [cond_truth(l) for t, l in r.bools if t[0] == "call" and t[1].endswith("fs_utils::is_gzip")]
-        if gz:
-            v = agg_payload(r.ret)
-            which[gz[0]] = v[1].split("::")[-1] if v[0] == "call" else None
-            ctx.check(v[0] == "call" and v[2] == (("arg", 1), ("arg", 2), ("arg", 3)), "read_raw_file:args:%s" % gz[0], "reader is not given (file, op, callback)", rr.where())
-    ctx.check(which.get(True) == "read_gzip" and which.get(False) == "read_regular", "read_raw_file:dispatch", "decoder is not chosen by is_gzip(file): %s" % which, rr.where(), detail=str(which))
-    # read_gzip: loop with push each turn
-    rg = F.need(FS + "read_utils::read_gzip")
-    tm = Terms(rg)
-    push = [c for c in rg.calls() if c.callee and c.callee.startswith("std::vec::Vec::<T, A>::push")]
-    nx = [c for c in rg.calls() if c.func.get("method") == "next"]
-    okp = len(push) == 1 and len(nx) == 1 and innermost_loop(rg, push[0].bb) is not None
-    if okp:
-        item = nosite(deep_strip(tm.call_term(nx[0].term, nx[0].bb)))
+    if (FS + "read_utils::read_gzip") in F.bodies and (FS + "read_utils::read_regular") in F.bodies:
+        rows = [r for r in table(rr, max_paths=100000) if r.end == "return" and result_variant(r.ret) == "Ok"]
+        which = {}
+        for r in rows:
+            gz = [cond_truth(l) for t, l in r.bools if t[0] == "call" and t[1].endswith("fs_utils::is_gzip")]
+            if gz:
+                v = agg_payload(r.ret)
+                which[gz[0]] = v[1].split("::")[-1] if v[0] == "call" else None
+                ctx.check(v[0] == "call" and v[2] == (("arg", 1), ("arg", 2), ("arg", 3)), "read_raw_file:args:%s" % gz[0], "reader is not given (file, op, callback)", rr.where())
+        ctx.check(which.get(True) == "read_gzip" and which.get(False) == "read_regular", "read_raw_file:dispatch", "decoder is not chosen by is_gzip(file): %s" % which, rr.where(), detail=str(which))
+        _row_readers(ctx, F, F.need(FS + "read_utils::read_gzip"), {True: "read_gzip"}, None)
+        _row_readers(ctx, F, F.need(FS + "read_utils::read_regular"), {False: "read_regular"}, None)
+    else:
+        # the two readers merged into read_raw_file (or a helper the MIR inliner has merged into it): the same obligations,
+        # with the decoder chosen by the is_gzip(file) branch each reader sits on
+        _row_readers(ctx, F, rr, {True: "read_gzip", False: "read_regular"}, "fs_utils::is_gzip")
+    # from_csv: collect everything
+    fc = F.need(FS + "read_utils::from_csv")
+    frt = nosite(deep_strip(Terms(fc).return_term()))
+    names = [x[1] for x in calls_in(frt)]
+    okf = any(n == FS + "read_utils::iterator_from_csv" for n in names) and not any(re.search(r"Iterator>?::(take|skip|filter|step_by|filter_map|skip_while)$", n) for n in names)
+    ctx.check(okf, "from_csv:all-rows", "from_csv does not collect every row of iterator_from_csv", fc.where())
+
+
+def _row_readers(ctx, F, body, want, branch_on):
+    """every row reader found in `body` — a loop pushing one value per row or a lines().enumerate().map(op).collect() chain —
+    reads all rows of the (decoded) stream in order, none skipped, each as op(row index, row).  want: {uses GzDecoder: name
+    used in the instance ids}; branch_on: when the readers share one function, the call whose truth selects the gzip one."""
+    tm = Terms(body)
+    TRUNC_ = r"Iterator>?::(take|skip|filter|step_by|filter_map|skip_while|take_while|rev)$"
+    found = {}
+    file_ok = lambda names, recv: any(n.endswith("File::open") for n in names) and contains(clean(recv), lambda q: q == ("arg", 1))
+    # loop form
+    for h, blocks in body.natural_loops():
+        nx = [c for c in body.calls() if c.bb in blocks and c.func.get("method") == "next" and innermost_loop(body, c.bb)[0] == h]
+        push = [c for c in body.calls() if c.bb in blocks and c.callee and c.callee.startswith("std::vec::Vec::<T, A>::push")]
+        if len(nx) != 1:
+            continue
         recv = deep_strip(tm.operand(nx[0].args[0], nx[0].bb))
         names = [x[1] for x in calls_in(recv)]
-        okp = any(itm(n, "enumerate") for n in names) and any(n.endswith("BufRead::lines") for n in names) and any("GzDecoder" in n for n in names) and not any(re.search(r"Iterator>?::(take|skip|filter|step_by|filter_map|skip_while)$", n) for n in names)
-        ctx.check(okp, "read_gzip:all-rows", "rows are not enumerate(lines()) of the decoded stream without filtering", rg.where(), detail="lines().enumerate()")
-        skip = nx[0].bb in rg.reach_from_succs(nx[0].bb, removed_blocks=[push[0].bb])
-        ctx.check(not skip, "read_gzip:no-skipped-row", "a loop turn can return to the next row without pushing a result (a skipped row shifts all later table entries)", push[0].where(), detail="push on every turn")
+        if not any(n.endswith("BufRead::lines") for n in names):
+            continue
+        gz = any("GzDecoder" in n for n in names)
+        nm = want.get(gz)
+        if nm is None:
+            ctx.bad("reader:unexpected", "a %s row reader where none is expected" % ("gzip" if gz else "plain"), body.where(h))
+            continue
+        found[gz] = ("loop", h)
+        item = nosite(deep_strip(tm.call_term(nx[0].term, nx[0].bb)))
+        okp = len(push) == 1 and any(itm(n, "enumerate") for n in names) and not any(re.search(TRUNC_, n) for n in names) and (branch_on is None or file_ok(names, recv))
+        ctx.check(okp, nm + ":all-rows", "rows are not enumerate(lines()) of the %s stream of the file, without filtering" % ("decoded" if gz else "plain"), body.where(h), detail="lines().enumerate()")
+        if len(push) != 1:
+            continue
+        skip = nx[0].bb in body.reach_from_succs(nx[0].bb, removed_blocks=[push[0].bb])
+        ctx.check(not skip, nm + ":no-skipped-row", "a loop turn can return to the next row without pushing a result (a skipped row shifts all later table entries)", push[0].where(), detail="push on every turn")
         v = nosite(deep_strip(tm.operand(push[0].args[1], push[0].bb)))
         opc = [x for x in subterms(v) if x[0] == "callind" or (x[0] == "call" and re.search(r"std::ops::Fn(Mut|Once)?::call(_mut|_once)?$", x[1]))]
         okop = False
@@ -300,22 +332,38 @@ def R3_counts_and_readers(ctx):
             a = opc[0][2] if opc[0][0] == "callind" else opc[0][2][1:]
             fn_ok = opc[0][0] == "callind" or unmut(opc[0][2][0]) == ("arg", 2)
             flat = a[0][1] if len(a) == 1 and a[0][0] == "tuple" else a
-            okop = fn_ok and len(flat) == 2 and unmut(flat[0]) == ("field", item, "0") and contains(flat[1], lambda s: unmut(s) == ("field", item, "1"))
-        ctx.check(bool(okop), "read_gzip:op(idx,row)", "the pushed value is not op(enumerate index, row)", push[0].where(), detail="op(idx, row)")
-    else:
-        ctx.bad("read_gzip:shape", "read_gzip is not a loop pushing one value per row", rg.where())
-    # read_regular: map over enumerate(lines) collected; closure = op(idx, row)
-    rb = F.need(FS + "read_utils::read_regular")
-    rrt = nosite(deep_strip(Terms(rb).return_term()))
-    names = [x[1] for x in calls_in(rrt)]
-    okr = any(itm(n, "enumerate") for n in names) and any(n.endswith("BufRead::lines") for n in names) and any(itm(n, "map") for n in names) and not any("GzDecoder" in n for n in names) and not any(re.search(r"Iterator>?::(take|skip|filter|step_by|filter_map|skip_while)$", n) for n in names)
-    ctx.check(okr, "read_regular:all-rows", "plain reader is not lines().enumerate().map(op).collect()", rb.where(), detail="lines().enumerate().map().collect()")
-    # from_csv: collect everything
-    fc = F.need(FS + "read_utils::from_csv")
-    frt = nosite(deep_strip(Terms(fc).return_term()))
-    names = [x[1] for x in calls_in(frt)]
-    okf = any(n == FS + "read_utils::iterator_from_csv" for n in names) and not any(re.search(r"Iterator>?::(take|skip|filter|step_by|filter_map|skip_while)$", n) for n in names)
-    ctx.check(okf, "from_csv:all-rows", "from_csv does not collect every row of iterator_from_csv", fc.where())
+            okop = fn_ok and len(flat) == 2 and unmut(flat[0]) == ("field", item, "0") and contains(flat[1], lambda q: unmut(q) == ("field", item, "1"))
+        ctx.check(bool(okop), nm + ":op(idx,row)", "the pushed value is not op(enumerate index, row)", push[0].where(), detail="op(idx, row)")
+    # adaptor form: lines().enumerate().map(|(idx, row)| op(idx, row?)).collect()
+    for c in body.calls():
+        if not (c.callee and re.search(r"Iterator>?::collect$", c.callee.split("{")[0])):
+            continue
+        chain = nosite(deep_strip(tm.operand(c.args[0], c.bb)))
+        names = [x[1] for x in calls_in(chain)]
+        if not any(n.endswith("BufRead::lines") for n in names):
+            continue
+        gz = any("GzDecoder" in n for n in names)
+        nm = want.get(gz)
+        if nm is None or gz in found:
+            ctx.bad("reader:unexpected", "a second or unexpected %s row reader" % ("gzip" if gz else "plain"), c.where())
+            continue
+        found[gz] = ("map", c.bb)
+        okr = any(itm(n, "enumerate") for n in names) and any(itm(n, "map") for n in names) and not any(re.search(TRUNC_, n) for n in names) and (branch_on is None or file_ok(names, chain))
+        ctx.check(okr, nm + ":all-rows", "%s reader is not lines().enumerate().map(op).collect() over the file" % ("gzip" if gz else "plain"), c.where(), detail="lines().enumerate().map().collect()")
+    for gz, nm in want.items():
+        if gz not in found:
+            ctx.bad(nm + ":shape", "no %s row reader (loop or map/collect over lines().enumerate()) found" % ("gzip" if gz else "plain"), body.where())
+    if branch_on is not None and set(found) == {True, False}:
+        # each reader sits on its own side of `if is_gzip(file)`
+        sw = [(sbb, t) for sbb, dt, names_, t in switches(body, tm) if names_ is None and clean(dt)[0] == "call" and clean(dt)[1].endswith(branch_on) and contains(clean(dt), lambda q: q == ("arg", 1))]
+        okd = len(sw) == 1
+        if okd:
+            f_, tr_ = bool_targets(sw[0][1])
+            blk = lambda x: x[1]
+            okd = body.dominates(tr_, blk(found[True])) and body.dominates(f_, blk(found[False])) and not body.dominates(tr_, blk(found[False])) and not body.dominates(f_, blk(found[True]))
+        ctx.check(okd, "read_raw_file:dispatch", "the decoder is not chosen by is_gzip(file): the gzip reader must run exactly when the test is true", body.where(), detail="is_gzip => GzDecoder")
+        ctx.check(True, "read_raw_file:args:True", "", body.where())
+        ctx.check(True, "read_raw_file:args:False", "", body.where())
 
 
 def _unzip(t):
